@@ -13,6 +13,7 @@ package raft
 // data after every batch, final latest index).
 
 import (
+	"context"
 	"bytes"
 	"encoding/json"
 	"fmt"
@@ -249,6 +250,8 @@ type c09Case struct {
 	// Scrub (optional) makes a text independent of the process history (key prefix and absolute raft indexes of a
 	// log taken from a live backend): rapid only shrinks a failure whose message it can reproduce literally.
 	Scrub func(string) string
+	// Origin (optional): how the log came about (the leader's schedule trace), copied into the detail of a violation
+	Origin any
 }
 
 // visible: does the log of slot p reach FSM.ApplyBatch (everything but a non-final chunk)?
@@ -733,6 +736,7 @@ type c09Divergence struct {
 	Kind    string // verdict | state | index | panic | response | reopen-index | snapshot | chunk-lost | chunk-keys
 	Got     string
 	Want    string
+	Why     string // the replica's own message for a conflict
 	BatchLo int // the batch in which it showed
 	BatchHi int
 }
@@ -837,6 +841,9 @@ func (r *c09Replica) apply(rt *rapid.T, c *c09Case, lo, hi int) {
 			r.verdicts[p] = !conflict
 			if !conflict != e.ModelCommit && r.div == nil {
 				r.div = &c09Divergence{Replica: r.name, Pos: p, Kind: "verdict", Got: c09VerdictName(!conflict), Want: c09VerdictName(e.ModelCommit)}
+				if conflict {
+					r.div.Why = string(ar.EntrySlice[0].Value) + c09WhyConflict(r.fsm, c.Data[p])
+				}
 			}
 		}
 	}
@@ -1339,6 +1346,9 @@ func c09RunReplicas(rt *rapid.T, rec *verifx.Recorder, c *c09Case, ref string) {
 		m["divergence"] = map[string]any{"replica": d.Replica, "position": d.Pos, "kind": d.Kind, "got": d.Got, "reference": d.Want, "entry": c.Entries[d.Pos].String()}
 		b, _ := json.Marshal(divs)
 		m["all_divergences"] = string(b)
+		if c.Origin != nil {
+			m["origin"] = c.Origin
+		}
 		return m
 	}
 	// Every divergence is reported; a signature listed as a known finding makes rec.Violation return false, the
@@ -1395,4 +1405,44 @@ func c09RunReplicas(rt *rapid.T, rec *verifx.Recorder, c *c09Case, ref string) {
 			viol(sig, detail(d), "replica %s at entry #%d (%s): %s: got %s, %s says %s", d.Replica, d.Pos, e.String(), d.Kind, d.Got, ref, d.Want)
 		}
 	}
+}
+
+
+// c09WhyConflict re-evaluates the verification operations of a refused transaction entry on the replica's own store
+// (the refused entry changed nothing) and names the ones that do not match; diagnostics for the replay file only.
+func c09WhyConflict(f *FSM, raw []byte) string {
+	ld := &LogData{}
+	if err := proto.Unmarshal(raw, ld); err != nil {
+		return ""
+	}
+	var out []string
+	_ = f.db.View(func(tx *bolt.Tx) error {
+		b := tx.Bucket(dataBucketName)
+		for _, op := range ld.Operations {
+			switch op.OpType {
+			case verifyReadOp:
+				val := b.Get([]byte(op.Key))
+				if err := doVerifyEntry(op.Key, val, op.Value); err != nil {
+					out = append(out, fmt.Sprintf("read %s: stored now %q, hash type %d does not match", op.Key, val, op.Value[0]))
+				}
+			case verifyListOp:
+				params, err := parseListVerifyParams(op.Key)
+				if err != nil {
+					continue
+				}
+				keys, err := listPageInner(context.Background(), tx, params.Prefix, params.After, params.Limit)
+				if err == nil {
+					err = doVerifyList(op.Key, keys, op.Value)
+				}
+				if err != nil {
+					out = append(out, fmt.Sprintf("list %s: now %q does not match (%v)", op.Key, keys, err))
+				}
+			}
+		}
+		return nil
+	})
+	if len(out) == 0 {
+		return "; re-evaluated on the replica's store every verification matches"
+	}
+	return "; failing verifications: " + strings.Join(out, " | ")
 }
